@@ -458,8 +458,7 @@ class Behavior(_IModel):
         z_e_pg[..., A.start] = pOld_e_pg + res.dGamma
 
         C_alg = _spectral.Tangent(self.__eigen, res, C_e_pg)
-        converged = np.ones(eps6_e_pg.shape[:2], dtype=bool)
-        return res.sig, C_alg, z_e_pg, converged
+        return res.sig, C_alg, z_e_pg, np.asarray(res.converged, dtype=bool)
 
     def __Condense(self, C_e_pg: FeArray) -> FeArray:
         """Static condensation of the zz row and column, giving the in-plane tangent."""
